@@ -234,8 +234,32 @@ def plain(obj):
     """Real value -> plain structure for comparison / digest."""
     if isinstance(obj, dict):
         return {k: plain(v) for k, v in obj.items()}
-    if isinstance(obj, (list, tuple)):
+    if isinstance(obj, tuple):
+        return tuple(plain(v) for v in obj)
+    if isinstance(obj, list):
         return [plain(v) for v in obj]
+    return obj
+
+
+def freeze(obj):
+    """Trace form of an op: tuples (which JSON would turn into lists) become tagged dicts."""
+    if isinstance(obj, tuple):
+        return {"__tup__": [freeze(v) for v in obj]}
+    if isinstance(obj, list):
+        return [freeze(v) for v in obj]
+    if isinstance(obj, dict):
+        return {k: freeze(v) for k, v in obj.items()}
+    return obj
+
+
+def thaw(obj):
+    """Executable form of a trace op (inverse of freeze; always a fresh structure)."""
+    if isinstance(obj, dict):
+        if len(obj) == 1 and "__tup__" in obj:
+            return tuple(thaw(v) for v in obj["__tup__"])
+        return {k: thaw(v) for k, v in obj.items()}
+    if isinstance(obj, list):
+        return [thaw(v) for v in obj]
     return obj
 
 
@@ -243,7 +267,7 @@ def same(a, b):
     """Deep equality that does not confuse 1 / True / 1.0."""
     if isinstance(a, dict) and isinstance(b, dict):
         return a.keys() == b.keys() and all(same(a[k], b[k]) for k in a)
-    if isinstance(a, (list, tuple)) and isinstance(b, (list, tuple)):
+    if isinstance(a, (list, tuple)) and type(a) is type(b):
         return len(a) == len(b) and all(same(x, y) for x, y in zip(a, b))
     return type(a) is type(b) and a == b
 
@@ -1658,7 +1682,9 @@ class Gen:
         self.ragged = r.choice([0, 0.15, 0.4])
         self.none_rate = r.choice([0, 0.15, 0.35])
         self.nested = r.random() < 0.3
-        self.tuples = False     # tuple-valued keys cannot be carried by JSON traces (see DESIGN 11.10)
+        # tuple-valued entries ((row, col), (year, month)): hashable, orderable, usable as group,
+        # sort, unique and join keys; traces carry them in tagged form (freeze/thaw)
+        self.tuples = r.random() < 0.25
         groups = {
             "subset": ["filter", "filter_out", "head", "tail", "slice", "drop_na", "sample", "unique"],
             "order": ["sort", "reverse"],
@@ -2219,8 +2245,8 @@ def _run(prop, rng=None, trace=None):
                 continue
             if "out" in op and op["out"] is not None:
                 world.next_handle = max(world.next_handle, op["out"] + 1)
-            rec = copy.deepcopy(op)
-            world.execute(op)
+            rec = freeze(op)
+            world.execute(thaw(rec))
             ops_done.append(rec)
     finally:
         dataiter.PRINT_MAX_ITEMS, dataiter.DEFAULT_PEEK_ITEMS = saved
